@@ -31,37 +31,37 @@ PLAN = {
         "level": "model_checking",
         "rule": RULE_TRACE,
         "models": [MC("MC_P3_new.cfg", W_NEW), MC("MC_P4_new.cfg", W_NEW)],
-        "traces": [T("arith_new", (250, 4000), (12, 14))],
+        "traces": [T("arith_new", (250, 30000), (12, 14))],
     },
     "C03": {
         "level": "exploration",
         "rule": RULE_TRACE,
         "models": [MC("MC_P3_addsub.cfg", W_ADD, "thorough")],
-        "traces": [T("arith_add", (300, 6000), (12, 14))],
+        "traces": [T("arith_add", (300, 40000), (12, 14))],
     },
     "C04": {
         "level": "exploration",
         "rule": RULE_TRACE,
         "models": [MC("MC_P3_mul.cfg", W_MUL), MC("MC_P4_mul.cfg", W_MUL, "thorough")],
-        "traces": [T("arith_mul", (400, 8000), (12, 14))],
+        "traces": [T("arith_mul", (400, 40000), (12, 14))],
     },
     "C05": {
         "level": "exploration",
         "rule": RULE_TRACE,
         "models": [MC("MC_P3_div.cfg", W_DIV, "thorough")],
-        "traces": [T("arith_div", (350, 7000), (12, 14))],
+        "traces": [T("arith_div", (350, 30000), (12, 14))],
     },
     "C19": {
         "level": "exploration",
         "rule": RULE_TRACE,
         "models": [MC("MC_P3_rem.cfg", W_REM)],
-        "traces": [T("arith_rem", (300, 6000), (12, 14))],
+        "traces": [T("arith_rem", (300, 20000), (12, 14))],
     },
     "C06": {
         "level": "model_checking",
         "rule": RULE_TRACE,
-        "models": [MC("MC_P3_cmp.cfg", W_CMP), MC("MC_P4_cmp.cfg", W_CMP)],
-        "traces": [T("cmp", (120, 3000), (12, 14))],
+        "models": [MC("MC_P3_cmp.cfg", W_CMP), MC("MC_P4_cmp.cfg", W_CMP, "thorough")],
+        "traces": [T("cmp", (120, 15000), (12, 14))],
     },
     "C07": {
         "level": "model_checking",
@@ -73,25 +73,25 @@ PLAN = {
         "level": "model_checking",
         "rule": RULE_TRACE,
         "models": [MC("MC_P3_frac.cfg", W_FRAC), MC("MC_P4_frac.cfg", W_FRAC, "thorough")],
-        "traces": [T("frac", (500, 12000), (12, 14))],
+        "traces": [T("frac", (500, 60000), (12, 14))],
     },
     "C09": {
         "level": "model_checking",
         "rule": RULE_TRACE + "; conv_small = From<i8|u8|i16|u16> and the round trip for every value of the type",
         "models": [MC("MC_P3_wide.cfg", W_WIDE), MC("MC_P4_wide.cfg", W_WIDE)],
-        "traces": [T("conv", (600, 12000), (10, 14)), T("conv_small", (1, 1), (4, 16))],
+        "traces": [T("conv", (600, 50000), (10, 14)), T("conv_small", (1, 1), (4, 16))],
     },
     "C10": {
         "level": "model_checking",
         "rule": RULE_TRACE + "; each operand tuple is expanded into every spelling (4 reference/value forms, 2 assignment forms, 3 pairings, 5 operators, trait wrappers); the determinism memo of the specification demands identical words",
         "models": [MC("MC_P3_mul.cfg", W_MUL), MC("MC_P3_addsub.cfg", W_ADD, "thorough")],
-        "traces": [T("spell", (40, 1200), (12, 14))],
+        "traces": [T("spell", (40, 4000), (12, 14))],
     },
     "C01": {
         "level": "model_checking",
         "rule": RULE_TRACE + "; prog = random programs of 50-200 calls over 8 registers with results fed back (the Normalised invariant is evaluated after every call)",
         "models": [MC("MC_P3_wide.cfg", W_WIDE), MC("MC_P3_frac.cfg", W_FRAC), MC("MC_P3_new.cfg", W_NEW), MC("MC_P3_addsub.cfg", W_ADD, "thorough"), MC("MC_P3_div.cfg", W_DIV, "thorough")],
-        "traces": [T("prog", (12, 300), (8, 14)), T("arith_all", (100, 2000), (2, 6)), T("arith_new", (120, 2000), (4, 8)), T("conv", (300, 6000), (2, 6)), T("frac", (200, 4000), (2, 4)),
+        "traces": [T("prog", (12, 1500), (8, 14)), T("arith_all", (100, 2000), (2, 6)), T("arith_new", (120, 2000), (4, 8)), T("conv", (300, 6000), (2, 6)), T("frac", (200, 4000), (2, 4)),
                    T("grid07", (64, 16), (4, 16))],
     },
     "C11": {
@@ -116,34 +116,34 @@ PLAN = {
     "C13": {
         "level": "exploration",
         "rule": RULE_TRACE + "; sqrt/cbrt/hypot are decided by exact dyadic inequalities on r^2, r^3; powi against a ball enclosure of x^|n| by binary powering",
-        "traces": [T("roots", (120, 3000), (8, 14)), T("powi", (80, 2000), (6, 14))],
+        "traces": [T("roots", (200, 4000), (8, 14)), T("powi", (120, 2500), (6, 14))],
     },
     "C14": {
         "level": "exploration",
         "rule": RULE_TRACE + "; exp/exp2/exp_m1/powf against rigorous ball enclosures (Taylor series with explicit remainder, argument reduction with an enclosure of ln 2) computed in TLA+; stratified over every entry of the exp(n/128)-1, exp(1/2)^n, exp(16)^n tables and both sides of each range switch",
         "models": [MC("MC_P4_expflow.cfg", W_EXPFLOW), MC("MC_P5_expflow.cfg", W_EXPFLOW, "thorough")],
-        "traces": [T("exps", (140, 4000), (14, 14))],
+        "traces": [T("exps", (250, 5000), (14, 14))],
     },
     "C15": {
         "level": "exploration",
         "rule": RULE_TRACE + "; logarithms are enclosed by one or two rigorous Newton steps ln x = h + ln(1 + (x - e^h)/e^h) from the claimed result as hint, in ball arithmetic",
-        "traces": [T("logs", (80, 2500), (14, 14))],
+        "traces": [T("logs", (150, 3000), (14, 14))],
     },
     "C16": {
         "level": "exploration",
         "rule": RULE_TRACE + "; sin/cos against ball enclosures (reduction with an enclosure of pi/2, Taylor series with remainder), tan cross-multiplied by cos^2",
         "models": [MC("MC_P4_quadrant.cfg", W_QUAD), MC("MC_P5_quadrant.cfg", W_QUAD, "thorough")],
-        "traces": [T("trig", (100, 3000), (14, 14))],
+        "traces": [T("trig", (180, 3500), (14, 14))],
     },
     "C17": {
         "level": "exploration",
         "rule": RULE_TRACE + "; inverse functions are checked by monotone inversion through enclosures of sin/cos at r +- tolerance, with the branch/axis conventions as exact clauses",
-        "traces": [T("atrig", (80, 2500), (14, 14))],
+        "traces": [T("atrig", (160, 3000), (14, 14))],
     },
     "C18": {
         "level": "exploration",
         "rule": RULE_TRACE + "; sinh/cosh/tanh against enclosures of exp; asinh/acosh/atanh by monotone inversion through exp(r +- tolerance); (x, -x) pairs at every magnitude",
-        "traces": [T("hyp", (50, 1500), (14, 14))],
+        "traces": [T("hyp", (110, 2000), (14, 14))],
     },
     "C20": {
         "level": "model_checking",
